@@ -890,7 +890,7 @@ class ConcJudge:
 
     def fail(self, what, kind, progs, res, impl, expected):
         size = (sum(len(p) for p in progs), len(progs), len(res.schedule))
-        key = what.split(":")[0][:60]
+        key = what.split(" touches ")[0][:80] if what.startswith("lock discipline") else what.split(":")[0][:60]
         if key not in self.fails or size < self.fails[key][0]:
             case = dict(check="schedule", kind=kind, progs=progs, schedule=list(res.schedule), events=describe(progs, res.events))
             self.fails[key] = (size, case, impl, expected, what)
@@ -1302,7 +1302,30 @@ def main():
             run(chk, tabs, "quick", 90, escalate=True)
     if chk.notes:
         chk.extra["notes"] = chk.notes
+    report_all(chk)
     chk.finish()
+
+
+def defect_class(rec):
+    w = rec.get("what", "")
+    for n, pat in enumerate(("returns something else", "another state", "runs while the write lock is not held",
+                             "state changes while", "is read while no lock", "lock discipline", "outcome", "")):
+        if pat in w:
+            return n
+    return 99
+
+
+def report_all(chk):
+    """core.finish() reports the first spec failure; print one VIOLATION line with its own replay file for every
+    further failing case (one per wrapper and kind of failure), most telling class first"""
+    chk.spec_failures.sort(key=lambda r: (defect_class(r), r.get("case", {}).get("call", {}).get("m", "")))
+    if len(chk.spec_failures) <= 1:
+        return
+    base = dict(property=chk.prop, seed=chk.seed, tier=chk.tier, **chk.repo_state())
+    for rec in chk.spec_failures[1:]:
+        path = chk.write_replay(dict(base, kind="failing-input", **rec))
+        print(f"  failing input: {rec['what']}")
+        print(f"VIOLATION property={chk.prop} replay={path}")
 
 
 if __name__ == "__main__":
